@@ -66,7 +66,9 @@ class Run:
     # ---------------------------------------------------------------- rules
     def rule(self, rule: str, text: str, min_instances: int = 1) -> None:
         self.rule_text[rule] = text
-        self.min_instances[rule] = min_instances
+        # vacuity floor: half of the instance count confirmed by reading the pinned tree. A refactoring that merges duplicated
+        # sites legitimately lowers the count; a rule that has lost more than half of its anchors is no longer looking at the code
+        self.min_instances[rule] = max(1, min_instances // 2)
         self.instances.setdefault(rule, [])
 
     def instance(self, rule: str, where: str, what: str, ok: bool = True, nontrivial: bool = True, **facts: Any) -> None:
@@ -118,7 +120,7 @@ class Run:
             n = len(self.instances.get(rule, []))
             if n < mn:
                 self.analysis_errors.append(
-                    f"rule {rule}: {n} instance(s) found, fewer than the {mn} confirmed by reading the tree "
+                    f"rule {rule}: {n} instance(s) found, fewer than the floor of {mn} (half of what was confirmed by reading the tree) "
                     f"(rule would pass vacuously; anchors moved?)"
                 )
         out: list[str] = []
